@@ -442,7 +442,10 @@ def check_encoding(prog, rep, m):
                     ok = True
     rep.add('T5', init, entry, 'observer cell = 180 and generates no events', init.node.lineno, ok, '')
     sv = m.funcs.get('_set_visibility')
-    ok = sv is not None and any(T(s) == 'visibility_grid[i][j]=value' or T(s) == 'visibility_grid[i,j]=value' for s in sv.own_nodes())
+    ok = False
+    if sv is not None and len(sv.params) == 4:
+        g_, i_, j_, v_ = sv.params
+        ok = any(T(s) in ('%s[%s][%s]=%s' % (g_, i_, j_, v_), '%s[%s,%s]=%s' % (g_, i_, j_, v_)) for s in sv.own_nodes())
     rep.add('T5', sv or m, entry, '_set_visibility stores at [i][j]', sv.node.lineno if sv else 1, ok, '')
     # _get_vertical_ang branches
     f = m.funcs.get('_get_vertical_ang')
@@ -542,7 +545,9 @@ def check_wrapper(prog, rep, m, entry):
     if len(kc) != 1 or not kc[0].bound:
         rep.add('T6', cpu, entry, 'sweep kernel call', cpu.node.lineno, None, '%d calls of the sweep kernel with bound arguments' % len(kc))
         return
-    b = kc[0].bound
+    # the sweep's parameters under the names the rules use: by position of its own signature (their names may be anything)
+    SW_CANON = ('raster', 'vp_row', 'vp_col', 'vp_elev', 'vp_target', 'ew_res', 'ns_res', 'event_rcts', 'event_aes', 'data', 'visibility_grid')
+    b = {c_: kc[0].bound.get(p_) for c_, p_ in zip(SW_CANON, sw.params)}
     line = kc[0].node.lineno
     P = {p: ('param', p) for p in cpu.params}
     rname = cpu.params[0]
@@ -629,11 +634,11 @@ def check_wrapper(prog, rep, m, entry):
     rep.add('T10', cpu, entry, 'kernels receive float64 terrain', line, ok,
             'the event generation and the sweep work on float64 values; got %s' % (tshow(got, 120) if got is not None else None))
     # T6: the remaining kernel arguments are the arrays the event pass filled
-    inits = [c for c in w.calls if isinstance(c.callee, Func) and c.callee.jit is not None and c.callee is not sw and
-             'event_list' in (c.bound or {})]
+    initf = m.funcs.get('_init_event_list')
+    inits = [c for c in w.calls if isinstance(c.callee, Func) and c.callee is initf and c.bound]
     ok = None
     if len(inits) == 1:
-        ib = inits[0].bound
+        ib = {c_: inits[0].bound.get(p_) for c_, p_ in zip(('event_list', 'raster', 'vp_row', 'vp_col', 'data', 'visibility_grid'), initf.params)}
         ok = key(ib.get('vp_row')) == key(b.get('vp_row')) and key(ib.get('vp_col')) == key(b.get('vp_col')) and \
             key(ib.get('raster')) == key(b.get('raster')) and key(ib.get('data')) == key(b.get('data')) and \
             key(ib.get('visibility_grid')) == key(b.get('visibility_grid'))
